@@ -13,7 +13,7 @@ ANCHORS = ["ScenarioID.__str__", "ScenarioID.from_benchmark_id", "CommonRoadSolu
 REQUIRED = ["kind.map", "kind.config", "kind.behaviour", "kind.behaviour+id", "kind.behaviour+ids",
             "kind.behaviour-noconfig", "cooperative", "country.ZAM", "solution.single", "solution.cooperative",
             "all-model-type-cost-tuples", "assigned-after-print.map_id", "assigned-after-print.prediction_id",
-            "assigned-after-print.configuration_id"]
+            "assigned-after-print.configuration_id", "original-inspected-before-comparison"]
 ASSUMPTIONS = ["single-element prediction-id lists are not generated (canonical single form is the int)",
                "map names consist of letters and digits (the constructor strips everything else)"]
 SHARDS = {"quick": 2, "thorough": 16}
@@ -101,6 +101,18 @@ def run(ctx):
                               "%r: %s=%r expected %r" % (f, fld, getattr(sid, fld), e[fld]), f)
         if str(back) != s:
             ctx.violation("C13/ScenarioID/reprint-differs/" + kind, "%r -> %r" % (s, str(back)), f)
+        if i % 2 == 0:
+            # an id in use has been LOOKED at (its derived read-only properties, e.g. the country name for a title); the
+            # freshly parsed one has not: they are still the same id
+            for a_ in dir(sid):
+                if not a_.startswith("_") and a_ not in FIELDS:
+                    try:
+                        v_ = getattr(type(sid), a_, None)
+                        if isinstance(v_, property):
+                            getattr(sid, a_)
+                    except Exception:  # noqa
+                        pass
+            ctx.feature("original-inspected-before-comparison")
         try:
             if not (sid == back) or not (back == sid) or hash(sid) != hash(back):
                 if not isinstance(sid.prediction_id, list):  # list-valued ids are unhashable: C12's business
